@@ -10,7 +10,7 @@ use std::collections::BTreeMap;
 
 use vibrato::Dictionary;
 
-use crate::core::{catch, panic_violation, Check, Ctx, PanicInfo, Scenario, ScenarioInfo, Tier, Violation};
+use crate::core::{catch, panic_violation, Check, Ctx, Scenario, ScenarioInfo, Tier, Violation};
 use crate::corrupt::{
     corrupt_bigram, corrupt_char_def, corrupt_generic, corrupt_lex_csv, corrupt_matrix_def,
     matrix_too_big,
@@ -234,7 +234,105 @@ fn probe_sentences(plan: &Plan, char_def: &str) -> Vec<String> {
 
 /// Tokenizes every probe under every option set; classifies a panic as the known finding when its
 /// precise predicate holds.
-fn check_safe_use(dict: Dictionary, probes: &[String], stage: &str, ctx: &mut Ctx) -> Result<Dictionary, Violation> {
+/// Lazily built "repaired replica" used to confirm known finding KF-C10-1 causally: the same
+/// (effective) files plus one unk.def row for every category that has none, taken through the same
+/// follow-up operations. If the sentence that panicked tokenizes fine there, the missing unk.def
+/// entries are the cause; if it still panics, it is a different defect and is reported.
+struct Repair<'a> {
+    plan: &'a Plan,
+    /// follow-up operations (after Build) applied so far
+    stage: usize,
+    built: Option<(usize, Option<Dictionary>)>,
+}
+
+impl Repair<'_> {
+    fn effective(&self, name: &str, op: Option<&Op>) -> Vec<u8> {
+        let mut v = self.plan.file(name).to_vec();
+        if let Some(f) = op.and_then(|o| o.faults.get(name)) {
+            if let (Some(k), 2) = (f.hard_at, f.hard_kind) {
+                v.truncate(k as usize);
+            }
+        }
+        v
+    }
+    fn dictionary(&mut self, accepted: &Dictionary) -> Option<Dictionary> {
+        if let Some((st, d)) = self.built.take() {
+            if st == self.stage {
+                return d;
+            }
+        }
+        let plan = self.plan;
+        let build_op = plan.ops.iter().find(|o| o.kind == "Build");
+        let mut files = std::collections::BTreeMap::new();
+        for name in plan.files.keys() {
+            files.insert(name.clone(), self.effective(name, build_op));
+        }
+        let names = accepted.verif_category_names();
+        // the added rows come first: the (possibly torn) original may end inside a quoted field
+        let mut unk: Vec<u8> = vec![];
+        for (id, n) in names.iter().enumerate() {
+            if accepted.verif_unk_rows(id as u32) == 0 {
+                unk.extend_from_slice(format!("{},0,0,0,REPAIRED\n", crate::world::csv_quote(n)).as_bytes());
+            }
+        }
+        unk.extend_from_slice(files.get("unk.def").map(|v| v.as_slice()).unwrap_or(&[]));
+        files.insert("unk.def".to_string(), unk);
+        let mut scratch = Ctx::new(false);
+        let mut d = match build_dict(&files, plan.param("conn"), plan.param("order_seed") as u64, None, &mut scratch) {
+            Ok(Ok(d)) => d,
+            _ => return None,
+        };
+        let none = crate::plan::Fault::default();
+        for op in plan.ops.iter().filter(|o| o.kind != "Build").take(self.stage) {
+            d = match op.kind.as_str() {
+                "LoadUser" => {
+                    let csv = self.effective("user.csv", Some(op));
+                    match load_user(d, &csv, &none, &mut scratch) {
+                        Ok(Ok(d)) => d,
+                        _ => return None,
+                    }
+                }
+                "Map" => match map_ids(d, &parse_ids(op.str(0)), &parse_ids(op.str(1))) {
+                    Ok(Ok(d)) => d,
+                    _ => return None,
+                },
+                _ => d,
+            };
+        }
+        Some(d)
+    }
+    /// True iff `s` tokenizes without panic on the repaired replica under the option set `o`.
+    fn tokenizes_when_repaired(&mut self, accepted: &Dictionary, o: crate::obs::OptSet, s: &str) -> bool {
+        let Some(d) = self.dictionary(accepted) else {
+            self.built = Some((self.stage, None));
+            return false;
+        };
+        if o.ignore_space && !has_space(&d) {
+            self.built = Some((self.stage, Some(d)));
+            return false;
+        }
+        let t = make_tokenizer(d, o);
+        let ok = catch(|| {
+            let mut w = t.new_worker();
+            w.reset_sentence(s);
+            w.tokenize();
+            w.num_tokens()
+        })
+        .is_ok();
+        self.built = Some((self.stage, Some(t.verif_into_dictionary())));
+        ok
+    }
+}
+
+/// Tokenizes every probe under every option set; classifies a panic as the known finding when its
+/// precise predicate holds.
+fn check_safe_use(
+    dict: Dictionary,
+    probes: &[String],
+    stage: &str,
+    ctx: &mut Ctx,
+    repair: &mut Repair,
+) -> Result<Dictionary, Violation> {
     let nl = dict.verif_num_left();
     let nr = dict.verif_num_right();
     let mut dict = dict;
@@ -272,7 +370,9 @@ fn check_safe_use(dict: Dictionary, probes: &[String], stage: &str, ctx: &mut Ct
                     }
                 }
                 Err(p) => {
-                    if is_known_unk_gap(&p, tokenizer.dictionary(), s) {
+                    if is_known_unk_gap(tokenizer.dictionary(), s)
+                        && repair.tokenizes_when_repaired(tokenizer.dictionary(), o, s)
+                    {
                         ctx.known_finding(
                             KF_UNK,
                             &format!(
@@ -295,16 +395,11 @@ fn check_safe_use(dict: Dictionary, probes: &[String], stage: &str, ctx: &mut Ct
     Ok(dict)
 }
 
-/// Predicate of known finding KF-C10-1: the panic is in tokenizer/lattice.rs and some character of
-/// the sentence belongs (as primary category) to a category that has no unk.def entry.
-fn is_known_unk_gap(p: &PanicInfo, dict: &Dictionary, s: &str) -> bool {
-    // the specific failure: the best-predecessor index is the INVALID marker (65535) on an empty
-    // node list, i.e. no node reaches the boundary EOS (or a word) connects from
-    if !p.file.ends_with("tokenizer/lattice.rs")
-        || !p.msg.contains("the len is 0 but the index is 65535")
-    {
-        return false;
-    }
+/// Predicate of known finding KF-C10-1, structural part: some character of the sentence belongs
+/// (as primary category) to a category that has no unk.def entry. The causal part — the same
+/// sentence tokenizes without panic once every such category is given an entry — is checked on the
+/// repaired replica (`Repair`); together they do not depend on where or how the panic surfaces.
+fn is_known_unk_gap(dict: &Dictionary, s: &str) -> bool {
     s.chars().any(|c| {
         let (_, base, ..) = dict.verif_char_info(c);
         dict.verif_unk_rows(base) == 0
@@ -436,6 +531,11 @@ impl Scenario for BuildScenario {
         let probes = probe_sentences(plan, &char_def);
         let corrupted = !plan.file("faults").is_empty();
         let mut dict: Option<Dictionary> = None;
+        let mut repair = Repair {
+            plan,
+            stage: 0,
+            built: None,
+        };
         for op in &plan.ops {
             match op.kind.as_str() {
                 "Build" => {
@@ -514,7 +614,7 @@ impl Scenario for BuildScenario {
                             } else {
                                 ctx.count("probe.charinfo_unchecked");
                             }
-                            dict = Some(check_safe_use(d, &probes, "after build", ctx)?);
+                            dict = Some(check_safe_use(d, &probes, "after build", ctx, &mut repair)?);
                         }
                     }
                 }
@@ -543,7 +643,8 @@ impl Scenario for BuildScenario {
                                 ));
                             }
                             ctx.event("load user", "Ok");
-                            dict = Some(check_safe_use(d, &probes, "after loading the user lexicon", ctx)?);
+                            repair.stage += 1;
+                            dict = Some(check_safe_use(d, &probes, "after loading the user lexicon", ctx, &mut repair)?);
                         }
                     }
                 }
@@ -565,7 +666,8 @@ impl Scenario for BuildScenario {
                         }
                         Ok(Ok(d)) => {
                             ctx.event("map", "Ok");
-                            dict = Some(check_safe_use(d, &probes, "after mapping", ctx)?);
+                            repair.stage += 1;
+                            dict = Some(check_safe_use(d, &probes, "after mapping", ctx, &mut repair)?);
                         }
                     }
                 }
